@@ -397,3 +397,13 @@ Proof.
   rewrite firstn_app, firstn_all, Nat.sub_diag. cbn [firstn]. rewrite app_nil_r.
   apply mk_name_valid, Vr.
 Qed.
+
+(* outside the origin: relativize leaves the name alone, and so does derelativize for an
+   absolute name (a relative name is made absolute - its denotation under the origin) *)
+Theorem rel_derel_outside n o :
+  is_subdomain n o = false ->
+  relativize n o = Ok n /\ (is_absolute n = true -> derelativize n o = Ok n).
+Proof.
+  intros H. unfold relativize, derelativize. rewrite H. split; [reflexivity|].
+  intros ->. reflexivity.
+Qed.
